@@ -269,7 +269,7 @@ fn gen_input(rng: &mut Rng, family: u64) -> (Vec<u8>, &'static str) {
             (t.into_bytes(), "digits")
         }
         5 => {
-            let names: &[&str] = if rng.chance(1, 3) { &gen::FANCY_NAMES } else { &gen::PLAIN_NAMES };
+            let names: &[&str] = if rng.chance(1, 3) { &gen::FANCY_NAMES } else if rng.chance(1, 4) { &gen::MARK_NAMES } else { &gen::PLAIN_NAMES };
             let mut cfg = GenCfg::simple(&names[..5], 5);
             cfg.allow_ref = true;
             let toks = gen::render_tokens(&gen::gen_ast(rng, &cfg), rng, Style::Fancy);
@@ -455,6 +455,68 @@ fn cli_case(ctx: &Ctx, st: &mut Stats, rng: &mut Rng, idx: u64) {
     let _ = std::fs::remove_dir_all(&dir);
 }
 
+/// Inputs at the very limit of the domain (64 KiB = 65536 bytes): one identifier / comment / digit
+/// run / whitespace run that fills the input up to 65530..65536 bytes, as formula (file) or as
+/// ordering file, with every single output option.
+fn limit_job(ctx: &Ctx, job: usize, jobs: usize) -> Stats {
+    let mut st = Stats::new();
+    let mut k = 0usize;
+    for total in [65_530usize, 65_533, 65_534, 65_535, 65_536] {
+        let shapes: Vec<(&str, Vec<u8>)> = vec![
+            ("one-identifier", "a".repeat(total).into_bytes()),
+            ("identifier-and-more", format!("{} & b", "x".repeat(total - 4)).into_bytes()),
+            ("multibyte-identifier", format!("{}{}", "é".repeat(total / 2), if total % 2 == 1 { "z" } else { "" }).into_bytes()),
+            ("comment", format!("\"{}\" a", "c".repeat(total - 4)).into_bytes()),
+            ("digits", "7".repeat(total).into_bytes()),
+            ("whitespace", format!("{}a|b", " ".repeat(total - 3)).into_bytes()),
+        ];
+        for (shape, input) in shapes {
+            for (oi, opts) in [vec!["-t"], vec!["-t", "-v"], vec!["-v"], vec!["-m"], vec!["-r"], vec!["-t", "-f", "t"], vec!["-d", "out.dot"], vec!["-p", "tree.dot"], vec!["-t", "-c", "t"], vec![]].iter().enumerate() {
+                for as_ordering in [false, true] {
+                    k += 1;
+                    if k % jobs != job || (as_ordering && oi > 1) {
+                        continue;
+                    }
+                    let dir = ctx.fresh_dir(&format!("c12-limit-{}", k));
+                    let _ = std::fs::create_dir_all(&dir);
+                    let mut args: Vec<String> = Vec::new();
+                    let mut ord_hex = None;
+                    if as_ordering {
+                        let _ = std::fs::write(dir.join("input.txt"), b"a & b");
+                        let _ = std::fs::write(dir.join("ordering.txt"), &input);
+                        ord_hex = Some(hex(&input));
+                        args.push(dir.join("input.txt").display().to_string());
+                        args.push("-o".into());
+                        args.push(dir.join("ordering.txt").display().to_string());
+                    } else {
+                        let _ = std::fs::write(dir.join("input.txt"), &input);
+                        args.push(dir.join("input.txt").display().to_string());
+                    }
+                    args.extend(opts.iter().map(|s| if s.ends_with(".dot") { dir.join(s).display().to_string() } else { s.to_string() }));
+                    st.evals += 1;
+                    st.bump("cli_runs");
+                    st.bump("inputs_at_the_64KiB_limit");
+                    let out = cli::run(&ctx.bin("rsbdd"), &args, None, Some(&dir), Some((STEP_CAP, 5_000)), Duration::from_secs(60));
+                    let file_hex = if as_ordering { hex(b"a & b") } else { hex(&input) };
+                    let case = json!({"kind": "cli", "args": args, "stdin_hex": Value::Null, "input_hex": file_hex, "ordering_hex": ord_hex, "origin": format!("limit:{}:{}", shape, total), "dir": dir.display().to_string()});
+                    if out.timed_out {
+                        st.bump("cli_watchdog(inconclusive case)");
+                    } else if out.budget_exceeded() {
+                        st.bump("cli_budget_exceeded(not judged)");
+                    } else if out.crashed() {
+                        st.violate("c12.cli", format!("C12:cli:{}", out.panic_site()), format!("rsbdd {:?} ({} of {} bytes{}) died: {}\n{}", opts, shape, total, if as_ordering { " as ordering file" } else { "" }, out.status_string(), out.stderr_str().lines().filter(|l| !l.starts_with("finished ")).take(6).collect::<Vec<_>>().join("\n")), case);
+                    } else {
+                        st.bump(&format!("cli_exit_{}", out.code.unwrap_or(-1)));
+                        st.nt.insert(util::mix(util::hash_str(shape), (total * 100 + oi * 2 + as_ordering as usize) as u64));
+                    }
+                    let _ = std::fs::remove_dir_all(&dir);
+                }
+            }
+        }
+    }
+    st
+}
+
 fn cli_job(ctx: &Ctx, job: usize, iters: u64) -> Stats {
     let mut st = Stats::new();
     let mut rng = Rng::stream(ctx.seed, "C12.cli", job as u64);
@@ -488,10 +550,14 @@ pub fn run(ctx: &Ctx) -> (Stats, Spec) {
         }
         st
     });
-    let parts = util::par_jobs(16, |job| cli_job(ctx, job, cli_iters));
+    let parts = util::par_jobs(16, |job| {
+        let mut s = cli_job(ctx, job, cli_iters);
+        s.merge(limit_job(ctx, job, 16));
+        s
+    });
     st.merge(crate::report::merge_all(parts));
     let spec = Spec {
-        rule: "byte strings from 11 families (large inputs up to ~60 KiB: huge comments, very long identifiers, long whitespace runs, thousands of lines; random bytes; invalid UTF-8 inside formulas; token soups incl. braces/quotes; curated Unicode incl. non-ASCII digits; digit runs around 2^31/2^63/2^64 and up to 40 digits, also of 2-/3-/4-byte non-ASCII digits mixed with ASCII ones; mutated formulas; unbalanced brackets/quotes; empty input; every nestable construct nested up to exactly 200; valid formulas), a quarter of them combined with a hostile ordering; CLI: the same families through --evaluate / file / stdin / missing file x random subsets of -t -v -m -r -c -f -b -g -d -p -o with valid and invalid values. distinct = input bytes (+ ordering / options); non-trivial = the input got past tokenisation (reached the parser or beyond).".into(),
+        rule: "byte strings from 11 families plus inputs of exactly 65530-65536 bytes (one identifier / multi-byte identifier / comment / digit run / whitespace run filling the whole input, as formula and as ordering file, with each output option) (large inputs up to ~60 KiB: huge comments, very long identifiers, long whitespace runs, thousands of lines; random bytes; invalid UTF-8 inside formulas; token soups incl. braces/quotes; curated Unicode incl. non-ASCII digits; digit runs around 2^31/2^63/2^64 and up to 40 digits, also of 2-/3-/4-byte non-ASCII digits mixed with ASCII ones; mutated formulas; unbalanced brackets/quotes; empty input; every nestable construct nested up to exactly 200; valid formulas), a quarter of them combined with a hostile ordering; CLI: the same families through --evaluate / file / stdin / missing file x random subsets of -t -v -m -r -c -f -b -g -d -p -o with valid and invalid values. distinct = input bytes (+ ordering / options); non-trivial = the input got past tokenisation (reached the parser or beyond).".into(),
         assumptions: vec![
             "'nesting depth <= 200' is read as depth of the syntax tree (a right-nested chain of n binary operators has depth n)".into(),
             "formulas are evaluated only when the reference finds their fixed points convergent and their size bounded (<= 10 names, lists <= 8, <= 300 nodes); exceeding the logical step budget is an inconclusive case".into(),
@@ -505,6 +571,7 @@ pub fn run(ctx: &Ctx) -> (Stats, Spec) {
             ("stage_printed".into(), 1_000, "print path never reached".into()),
             ("with_ordering".into(), 1_000, "orderings never exercised".into()),
             ("cli_runs".into(), 1_000, "CLI hardly exercised".into()),
+            ("inputs_at_the_64KiB_limit".into(), 200, "inputs at the size limit not exercised".into()),
             ("cli_exit_0".into(), 100, "CLI never succeeded".into()),
         ],
     };
